@@ -124,7 +124,9 @@ CHECKS = {
  "C19": ("other", "Proved for all graphs and variables (relations + a small algebra of Variable objects: base variable, subscript relation, plain variable of the same name): "
          "minimize_counterfactual returns a variable with the same base whose subscripts are exactly those of x that lie in An(Y) of G with the edges into X removed, a counterfactual "
          "variable iff that set is non-empty and otherwise the plain variable -- in particular the constructor's ValueError for an empty subscript set is unreachable; same_district "
-         "is true iff all base variables lie in one bidirected-connectivity class. Bounded stand-in (labelled): minimisation and the Def. 2.1 ancestors against independent "
+         "is true iff all base variables lie in one bidirected-connectivity class; get_ancestors_of_counterfactual returns exactly the set of Def. 2.1 (for graphs whose nodes are "
+         "unstarred plain variables): every member is W or W_z with W an ancestor of Y in G with the edges out of X removed and z exactly the subscripts of x that are ancestors of W "
+         "in G with the edges into X removed, and every such W occurs. Bounded stand-in (labelled): minimisation and the Def. 2.1 ancestors against independent "
          "re-implementations on every ADMG with 2-3 nodes and sampled 3-4 node ADMGs x every counterfactual variable with <= 2 subscripts; SIMPLIFY against a functional-SCM oracle "
          "(None only for probability-zero events, otherwise equal probability, no ill-formed variable) outside the input class of one open known finding; get_ancestral_components against a re-implementation of Def. 4.2 (sampled root sets "
          "<= 3 variables, X* a subset); do_counterfactual_factor_factorization against Eq. 11-15 structurally and the identity itself numerically on functional SCMs (queries whose "
